@@ -21,3 +21,8 @@ def run(rep: Report, repo: Repo, tier: str) -> None:
     rep.floor("C11-R5", 8, "test protocol rows")
     # ... and every entry of the list is rendered, once, in list order
     misc_rules.rule_document_order(rep, repo, "C11-R6")
+    # "shows all its other arguments": the signature reaches the text as written (no whitespace normalisation on the way)
+    from . import writer_rules
+    writer_rules.rule_values_verbatim(rep, repo, "C11-R7")
+    # the test commands are recognised however their name is capitalised (CMake command names are case-insensitive)
+    misc_rules.rule_case_folding(rep, repo, "C11-R8")
